@@ -145,6 +145,33 @@ func TestVerifMetaDaemon(t *testing.T) {
 		vfMetaArm(r.URL.Query().Get("point"), int64(k))
 		io.WriteString(w, "ok")
 	})
+	// hold: the FIRST goroutine that reaches `point` parks there until /release (later visitors pass)
+	var holdCh chan struct{}
+	var parked int32
+	mux.HandleFunc("/hold", func(w http.ResponseWriter, r *http.Request) {
+		ch := make(chan struct{})
+		holdCh = ch
+		atomic.StoreInt32(&parked, 0)
+		var first int32
+		VerifSetHook(r.URL.Query().Get("point"), func(string) {
+			if atomic.AddInt32(&first, 1) == 1 {
+				atomic.StoreInt32(&parked, 1)
+				<-ch
+			}
+		})
+		io.WriteString(w, "ok")
+	})
+	mux.HandleFunc("/parked", func(w http.ResponseWriter, r *http.Request) {
+		fmt.Fprintf(w, "%d", atomic.LoadInt32(&parked))
+	})
+	mux.HandleFunc("/release", func(w http.ResponseWriter, r *http.Request) {
+		if holdCh != nil {
+			close(holdCh)
+			holdCh = nil
+		}
+		VerifSetHook(r.URL.Query().Get("point"), nil)
+		io.WriteString(w, "ok")
+	})
 	mux.HandleFunc("/force", func(w http.ResponseWriter, r *http.Request) {
 		vfMetaForce(r.URL.Query().Get("point"))
 		io.WriteString(w, "ok")
@@ -468,6 +495,11 @@ func (r *vfMetaRun) exec(line string) {
 			r.out.Case("kill", "ok")
 		}
 		r.dead = true
+	case "race": // race <op A...> // <op B...> : A is parked right after its snapshot, B runs, A is released
+		if r.dead {
+			return
+		}
+		r.race(strings.Join(w[1:], " "))
 	case "killduring":
 		if r.dead {
 			return
@@ -529,6 +561,74 @@ func (r *vfMetaRun) exec(line string) {
 					g = "1"
 				}
 				ans += " gone=" + g
+			}
+		}
+		r.out.Case(line, ans)
+	}
+}
+
+// race: two synchronous-persist requests A and B on different objects. A is held at `meta.persist.afterSnapshot`
+// (its document is taken, not yet written); B is issued. If persists exclude each other (they run under the nsqd
+// write lock) B cannot finish while A is parked: it is released and B's persist, which started later, lands last.
+// If B does finish while A is parked, A's older document is renamed over B's: B was answered 200 and its flag is
+// not on disk. Afterwards nsqd.dat must hold both flags.
+func (r *vfMetaRun) race(spec string) {
+	parts := strings.Split(spec, " // ")
+	a, b := strings.Fields(parts[0]), strings.Fields(parts[1])
+	const pt = "meta.persist.afterSnapshot"
+	r.get(r.p.ctl, "/hold?point="+pt)
+	type res struct {
+		code int
+		err  error
+	}
+	ca, cb := make(chan res, 1), make(chan res, 1)
+	go func() { c, e := r.post(vfMetaOpPath(a)); ca <- res{c, e} }()
+	isParked := false
+	for i := 0; i < 400 && !isParked; i++ {
+		if p, _ := r.get(r.p.ctl, "/parked"); p == "1" {
+			isParked = true
+		} else {
+			time.Sleep(5 * time.Millisecond)
+		}
+	}
+	go func() { c, e := r.post(vfMetaOpPath(b)); cb <- res{c, e} }()
+	var rb res
+	bWhileParked := false
+	select {
+	case rb = <-cb:
+		bWhileParked = isParked
+	case <-time.After(300 * time.Millisecond):
+	}
+	r.get(r.p.ctl, "/release?point="+pt)
+	ra := <-ca
+	if !bWhileParked {
+		rb = <-cb
+	}
+	r.stats["race:b-finished-while-a-parked="+strconv.FormatBool(bWhileParked)]++
+	dat := vfMetaReadDat(r.dir)
+	flagOf := func(w []string) string {
+		if w[0] == "pausetopic" {
+			return vfMetaFileFlag(dat, w[1], "")
+		}
+		return vfMetaFileFlag(dat, w[1], w[2])
+	}
+	for _, x := range []struct {
+		w  []string
+		rs res
+	}{{a, ra}, {b, rb}} {
+		line := strings.Join(x.w, " ")
+		if x.rs.err != nil {
+			r.out.Case(line, "http-error: "+x.rs.err.Error())
+			continue
+		}
+		ans := strconv.Itoa(x.rs.code)
+		if x.rs.code == 200 {
+			f := flagOf(x.w)
+			ans += " file=" + f
+			if f != "-" && f != x.w[len(x.w)-1] {
+				r.fail("pause-ack-not-persisted", fmt.Sprintf(
+					"`%s` was answered 200 but nsqd.dat=%s does not have that flag. Schedule: `%s` parked at %s (document taken, not yet written), `%s` issued and answered while it was parked: %v, then the first one released: its older document was renamed last",
+					line, dat, strings.Join(a, " "), pt, strings.Join(b, " "), bWhileParked))
 			}
 		}
 		r.out.Case(line, ans)
@@ -691,6 +791,20 @@ func vfMetaScript(rng *vfRand, kind int, idx int) []string {
 		} else {
 			s = append(s, "force topic.delete.afterNotify", "deletetopic t2", "idle", "kill", "restart", "idle")
 		}
+	case 4: // two concurrent pause/unpause requests, the first parked between its snapshot and its write
+		s = append(s, "createtopic t1", "createchan t1 c0", "createtopic t2", "createchan t2 c1", "idle")
+		variants := []string{
+			"race pausetopic t1 1 // pausechan t1 c0 1",
+			"race pausechan t1 c0 1 // pausetopic t1 1",
+			"race pausetopic t1 1 // pausetopic t2 1",
+			"race pausechan t2 c1 1 // pausechan t1 c0 1",
+		}
+		undo := []string{
+			"race pausetopic t1 0 // pausechan t1 c0 0",
+			"race pausechan t1 c0 0 // pausetopic t2 0",
+		}
+		s = append(s, variants[idx%len(variants)], "idle", undo[rng.Intn(len(undo))], "idle",
+			variants[(idx+1+rng.Intn(3))%len(variants)], "idle", "kill", "restart", "idle")
 	case 3: // plain sequential life with idle points, no forcing
 		for i := 0; i < 4; i++ {
 			s = append(s, sh.churn(rng, 2+rng.Intn(6))...)
@@ -735,7 +849,7 @@ func TestVerifMetaCorr(t *testing.T) {
 		rng := vfNewRand(0xC06)
 		k0 := int(rng.Next() % 9)
 		for i := 0; i < n; i++ {
-			kind := []int{0, 0, 0, 1, 1, 2, 3, 0}[i%8]
+			kind := []int{0, 0, 0, 1, 1, 2, 3, 4}[i%8]
 			if os.Getenv("VERIF_META_KIND") != "" {
 				kind = vfEnvInt("VERIF_META_KIND", 0)
 			}
@@ -743,6 +857,9 @@ func TestVerifMetaCorr(t *testing.T) {
 			if kind == 0 {
 				idx = k0
 				k0++
+			}
+			if kind == 4 {
+				idx = i / 8
 			}
 			scripts = append(scripts, vfMetaScript(rng, kind, idx))
 		}
